@@ -237,5 +237,8 @@ LEVEL_TEXT = ("The sort as coded is proved correct for ALL inputs: on acyclic (r
               "changes neither the state nor the count (C13_perm_invariant: wf_app, metadata declares the dependencies - decidable, "
               "C13_declared_computed, evaluated in the tie -, acyclic edges); C13_edges_complete, C13_edges_complete_self (the self: port of every "
               "directory above a line: rSelf(.., rEnabledBy(x))), C13_same_edges full at model level; an entry naming a port inside an enumerated "
-              "sub-tree resolves below the line's own expanded address (resolve_entry).")
+              "sub-tree resolves below the line's own expanded address (resolve_entry).  Stage 6: references THROUGH ports without a line give edges "
+              "(C13_edges_complete_through, the recursive call of scan_deps); permutations of a file give the same REPORTED value "
+              "(C13_perm_invariant_reported: dispatch_printed's return value, not only orders of equal length); wf_app, full_conditions and ranked "
+              "are evaluated in decidable form on every generated file (C13_ranked_computed, C12_*_computed) and counted into input_distribution.")
 LEVEL_NOTE = "apropos (C18) and the metadata lookup (C17) enter the model as a function argument; the application semantics are C12's abstract application"
